@@ -14,12 +14,17 @@ static uint64_t eval(const ApiFn *f, const Cell *c) {
   if (e) { int code = (int)e->code; h = fnv1(h, &code, sizeof code); if (e->message) h = fnv1(h, e->message, strlen(e->message)); }
   xrl_clear_error(&e); return h;
 }
+uint64_t xrl_tables_digest(void);      /* c16.c: digest of every table of the library */
 /* c16s <part> <nparts> */
 int cmd_c16s(int argc, char **argv) {
   int part = argc > 0 ? atoi(argv[0]) : 0, nparts = argc > 1 ? atoi(argv[1]) : 1; int idx = 0;
   static const double ES[] = {1.0, 10.0, 100.0};
+  /* kept until the end: after every entry point has been swept, the first pass of each is repeated (pass 5) - an entry point that
+   * changes what another one reads shows there, and in the digest of the library's tables taken before and after each sweep */
+  static struct { ApiFn *f; Cell *cells; uint64_t *r1; long n; } kept[400]; int nkept = 0;
   for (ApiFn *f = API_TABLE; f->name; f++) {
     if (idx++ % nparts != part) continue;
+    uint64_t dig0 = xrl_tables_digest();
     int ni = SIG_NI[f->sig], nd = SIG_ND[f->sig], ns = SIG_NS[f->sig];
     long n = (long)(ni ? 102 : 1) * (ni > 1 ? f->mhi - f->mlo + 1 : 1) * (nd ? 3 : 1) * (ns ? 4 : 1);
     Cell *cells = malloc(n * sizeof *cells); uint64_t *r1 = malloc(n * sizeof *r1); long k = 0;
@@ -33,10 +38,20 @@ int cmd_c16s(int argc, char **argv) {
     for (long i = 0; i < n; i++) if (eval(f, &cells[perm[i]]) != r1[perm[i]]) { if (nf < 8) { firsts[nf] = perm[i]; passof[nf++] = 3; } ndiff++; }
     /* and each cell twice in a row */
     for (long i = 0; i < n; i += 1) { uint64_t a = eval(f, &cells[i]), b = eval(f, &cells[i]); if (a != r1[i] || b != r1[i]) { if (nf < 8) { firsts[nf] = i; passof[nf++] = 4; } ndiff++; } }
-    fprintf(OUT, "{\"k\":\"sweep\",\"fn\":\"%s\",\"cells\":%ld,\"ndiff\":%ld,\"first\":[", f->name, n, ndiff);
+    uint64_t dig1 = xrl_tables_digest();
+    fprintf(OUT, "{\"k\":\"sweep\",\"fn\":\"%s\",\"cells\":%ld,\"tables\":%d,\"ndiff\":%ld,\"first\":[", f->name, n, dig0 == dig1, ndiff);
     for (int i = 0; i < nf; i++) { Cell *c = &cells[firsts[i]]; fprintf(OUT, "%s{\"pass\":%d,\"Z\":%d,\"m\":%d,\"E\":\"%g\",\"s\":\"%s\"}", i ? "," : "", passof[i], c->z, c->m, c->e, ns ? SS[c->s] : ""); }
     fputs("]}\n", OUT);
-    free(cells); free(r1); free(perm);
+    free(perm);
+    if (nkept < 400) { kept[nkept].f = f; kept[nkept].cells = cells; kept[nkept].r1 = r1; kept[nkept++].n = n; } else { free(cells); free(r1); }
+  }
+  for (int q = 0; q < nkept; q++) {
+    long ndiff = 0; long firsts[8]; int nf = 0; ApiFn *f = kept[q].f; int ns = SIG_NS[f->sig];
+    for (long i = 0; i < kept[q].n; i++) if (eval(f, &kept[q].cells[i]) != kept[q].r1[i]) { if (nf < 8) firsts[nf++] = i; ndiff++; }
+    fprintf(OUT, "{\"k\":\"sweep\",\"fn\":\"%s\",\"cells\":%ld,\"tables\":1,\"ndiff\":%ld,\"first\":[", f->name, kept[q].n, ndiff);
+    for (int i = 0; i < nf; i++) { Cell *c = &kept[q].cells[firsts[i]]; fprintf(OUT, "%s{\"pass\":5,\"Z\":%d,\"m\":%d,\"E\":\"%g\",\"s\":\"%s\"}", i ? "," : "", c->z, c->m, c->e, ns ? SS[c->s] : ""); }
+    fputs("]}\n", OUT);
+    free(kept[q].cells); free(kept[q].r1);
   }
   return 0;
 }
